@@ -327,4 +327,4 @@ def run(report, tier):
                  "deps forms %s x extra-parameter words over %s x qualifiers %s x return kinds %s x options %s x feature; incompatible combinations "
                  "(return borrowed from a by-value / absent dependency, elided return with two reference inputs, ..) pruned by construction; "
                  "every state non-trivial" % (DEPS, list(EXTRA), QUALS, list(RETS), OPTS))
-    evaluate(states, report, tier)
+    common.evaluate_chunked(evaluate, states, report, tier)
